@@ -297,4 +297,8 @@ def run(ctx):
     # (same rule instance as C01/pos-append)
     from rules import c01 as _c01pa
     _c01pa.rule_pos_append(ctx, R="C07/descriptor-then-bytes")
+    # shared infrastructure this property leans on (rules/families.py): each member is the same rule instance as in its home property
+    from rules import families as _fam
+    _fam.reader(ctx, "C07")
+    _fam.mapping_list(ctx, "C07")
 
